@@ -95,7 +95,8 @@ type workerResult struct {
 	Done         bool        `json:"done"`
 }
 
-var caseStartCPU int64 // process CPU nanoseconds when the current case started (0 = idle)
+var caseStartCPU int64    // process CPU nanoseconds when the current case started (0 = idle)
+var familyCPUBudget int64 // per-case CPU budget (s) of the family being executed (0 = the default)
 
 func cpuNanos() int64 {
 	var ru syscall.Rusage
@@ -162,7 +163,11 @@ func runWorker(args []string) int {
 			if st != curStart {
 				curStart, startWall, ring = st, now, nil
 			}
-			if cpu-st > int64(*cpuBudget)*int64(time.Second) {
+			budget := int64(*cpuBudget)
+			if fb := atomic.LoadInt64(&familyCPUBudget); fb > 0 {
+				budget = fb
+			}
+			if cpu-st > budget*int64(time.Second) {
 				af.WriteAt([]byte("CPUHANG "), 121)
 				os.Exit(3)
 			}
@@ -190,6 +195,7 @@ func runWorker(args []string) int {
 	var flushed int64
 	for _, fam := range m.Families {
 		n := fam.N(*tier)
+		atomic.StoreInt64(&familyCPUBudget, int64(fam.CPUBudget))
 		for idx := *shard; idx < n; idx += *nshards {
 			key := fam.Name + ":" + strconv.Itoa(idx)
 			if skipSet[key] {
